@@ -531,7 +531,10 @@ def run_property(prop_mod: str, tier: str, seed: int, replay: str | None = None,
         violations=len(violations),
     )
     if not errors:
-        write_evidence(prop.id, evidence)
+        problem = write_evidence(prop.id, evidence)
+        if problem and not violations:
+            errors.append("evidence does not validate: " + problem)
+            print("HARNESS-ERROR:", errors[-1], file=sys.stderr)
     print(
         f"{prop.id} tier={tier} seed={seed}: cases={totals['cases']} evaluations={totals['evaluations']} "
         f"distinct_nontrivial={len(nontrivial)} replayed={replayed} violations={len(violations)} "
@@ -544,14 +547,18 @@ def run_property(prop_mod: str, tier: str, seed: int, replay: str | None = None,
     return 0
 
 
-def write_evidence(prop_id: str, evidence: dict) -> None:
+def write_evidence(prop_id: str, evidence: dict) -> str | None:
     d = ROOT / "evidence"
     d.mkdir(exist_ok=True)
+    problem = None
     try:
         import jsonschema
 
         schema = json.loads(Path("/root/.vp/EVIDENCE.schema.json").read_text())
-        jsonschema.validate(json.loads(json.dumps(evidence, default=repr)), schema)
+        try:
+            jsonschema.validate(json.loads(json.dumps(evidence, default=repr)), schema)
+        except jsonschema.ValidationError as x:
+            problem = x.message
     except ImportError:
         pass
     except FileNotFoundError:
@@ -562,3 +569,4 @@ def write_evidence(prop_id: str, evidence: dict) -> None:
         (d / f"{prop_id}.json").write_text(json.dumps(evidence, indent=1, default=repr) + "\n")
     finally:
         sys.set_int_max_str_digits(old)
+    return problem
